@@ -157,4 +157,16 @@ theorem wsWords_normalizeText (s : List Char) : wsWords (normalizeText s) = wsWo
   unfold normalizeText normWords
   rw [wsWords_joinSp, flatMap_strip_filter, ← wsWords_joinSp, joinSp_splitSp, wsWords_replNbsp]
 
+theorem joinSp_mem (c : Char) : ∀ (ws : List (List Char)), c ∈ joinSp ws → c = ' ' ∨ ∃ w ∈ ws, c ∈ w
+  | [], h => by simp [joinSp] at h
+  | [w], h => by simp only [joinSp] at h; exact Or.inr ⟨w, List.mem_cons_self, h⟩
+  | w :: v :: ws, h => by
+    simp only [joinSp, List.mem_append, List.mem_cons] at h
+    rcases h with h | h | h
+    · exact Or.inr ⟨w, List.mem_cons_self, h⟩
+    · exact Or.inl h
+    · rcases joinSp_mem c (v :: ws) h with h | ⟨x, hx, hc⟩
+      · exact Or.inl h
+      · exact Or.inr ⟨x, List.mem_cons_of_mem _ hx, hc⟩
+
 end Metapype
